@@ -235,7 +235,18 @@ def probe_rule(run, f, rid):
         okv = False
         if len(we) == 1:
             v = describe_val(b, du, we[0][1]["args"][0])
-            okv = v[0] == "agg" and v[2] == "Some" and ("time" in repr(v) or "Duration" in repr(v))
+            # Some(d) where d is computed from the wrapper's own time argument (the first syscall argument, after self and
+            # fn_ptr) -- by data dependence, not by what the variable happens to be called; its unit is C14-UNITS' business
+            dsl = backward(b, we[0][1]["args"][0], du, at=(we[0][0], "term"), through_calls="all")
+            # ... and through value-preserving steps only ("for their full Duration"): conversions, Duration constructors,
+            # a checked/saturating widening multiply for the unit change.  min / max / clamp / subtraction / division between the
+            # argument and the wait would shorten it (a data dependence alone cannot tell min(1ms, t) from t)
+            ALLOWED = ("std::time::Duration::from_", "std::time::Duration::new", "std::convert::From>::from", "std::convert::TryFrom>::try_from",
+                       "std::convert::TryInto>::try_into", "std::convert::Into>::into", "::expect", "::unwrap", "::unwrap_or", "::checked_mul", "::saturating_mul",
+                       "::checked_add", "::saturating_add", "std::option::Option::map", "std::option::Option::map_or")
+            foreign = sorted({norm(t_.get("callee") or "") for (_x, t_) in dsl.calls if not any(a_ in norm(t_.get("callee") or "") for a_ in ALLOWED)})
+            shrink = [o for o in dsl.binops() if o in ("Sub", "SubWithOverflow", "Div", "Rem", "Shr", "BitAnd")]
+            okv = v[0] == "agg" and v[2] == "Some" and 3 in dsl.params and not foreign and not shrink
         if we and okv and not raw:
             run.ok(rid, nm + "/waits-through-event-loop", "EventLoops::wait_event(Some(time)), no raw blocking call")
         else:
